@@ -333,6 +333,9 @@ func runC12(c C12Case) (res c12result) {
 			cls["acks-out-of-request-order"] = true
 		}
 	}
+	if len(order) > 16 {
+		cls[">16-requests-in-flight"] = true
+	}
 	for _, i := range order {
 		if f := acknowledge(i, false); f != "" {
 			return c12result{Fail: f}
@@ -371,6 +374,18 @@ func runC12(c C12Case) (res c12result) {
 func genC12(t *rapid.T) C12Case {
 	var c C12Case
 	ping := false
+	if rapid.IntRange(0, 5).Draw(t, "bulk") == 0 {
+		// more requests of one kind in flight than the ack queue's initial 16 slots, after some completed ones
+		kind := rapid.SampledFrom([]string{"pub1", "pub2", "sub", "unsub"}).Draw(t, "bulkkind")
+		for i, k := 0, rapid.IntRange(0, 5).Draw(t, "completed-before"); i < k; i++ {
+			c.Reqs = append(c.Reqs, Req{Kind: kind, Forced: true})
+		}
+		for i, k := 0, rapid.IntRange(15, 30).Draw(t, "bulkn"); i < k; i++ {
+			c.Reqs = append(c.Reqs, Req{Kind: kind})
+		}
+		c.AckOrder = rapid.SliceOfN(rapid.IntRange(0, 29), 0, 6).Draw(t, "bulkorder")
+		return c
+	}
 	for i, n := 0, rapid.IntRange(1, 8).Draw(t, "nreqs"); i < n; i++ {
 		k := rapid.SampledFrom([]string{"pub0", "pub1", "pub1", "pub2", "pub2", "sub", "unsub", "ping"}).Draw(t, "kind")
 		if k == "ping" {
